@@ -242,8 +242,10 @@ class SeedConfiguration(ConfigurationBase):
                 else:
                     levels = list(range(0, grid.levels))
 
+                # only for this cache: the next cache of this seed might support timestamps
+                refresh_all = self.refresh_all
                 if not tile_manager.cache.supports_timestamp:
-                    self.refresh_all = True
+                    refresh_all = True
 
                 md = dict(name=self.name, cache_name=cache_name, grid_name=grid_name)
 
@@ -251,9 +253,9 @@ class SeedConfiguration(ConfigurationBase):
                     if tile_manager.rescale_tiles > 0:
                         levels = levels[::-1]
                     for level in levels:
-                        yield SeedTask(md, tile_manager, [level], self.refresh_timestamp, self.refresh_all, coverage)
+                        yield SeedTask(md, tile_manager, [level], self.refresh_timestamp, refresh_all, coverage)
                 else:
-                    yield SeedTask(md, tile_manager, levels, self.refresh_timestamp, self.refresh_all, coverage)
+                    yield SeedTask(md, tile_manager, levels, self.refresh_timestamp, refresh_all, coverage)
 
 
 class CleanupConfiguration(ConfigurationBase):
@@ -296,17 +298,19 @@ class CleanupConfiguration(ConfigurationBase):
                 else:
                     levels = list(range(0, grid.levels))
 
+                # only for this cache: the next cache of this cleanup might support timestamps
+                remove_all = self.remove_all
                 if not tile_manager.cache.supports_timestamp:
                     # for caches without timestamp support (like MBTiles)
                     if self.remove_timestamp is self.init_time:
                         # remove everything
-                        self.remove_all = True
+                        remove_all = True
                     else:
                         raise SeedConfigurationError(
                             "cleanup does not support remove_before for '%s'"
                             " because cache '%s' does not support timestamps" % (self.name, cache_name))
                 md = dict(name=self.name, cache_name=cache_name, grid_name=grid_name)
-                yield CleanupTask(md, tile_manager, levels, self.remove_timestamp, remove_all=self.remove_all,
+                yield CleanupTask(md, tile_manager, levels, self.remove_timestamp, remove_all=remove_all,
                                   coverage=coverage, complete_extent=complete_extent)
 
 
